@@ -10,6 +10,8 @@ import (
 	"time"
 )
 
+var boundedOut []boundedResult
+
 type violation struct {
 	Obligation string
 	Reason     string
@@ -142,6 +144,14 @@ func report(o *checkOpts, prog *Program, results []*UnitResult, genFails map[str
 	}
 	sort.Slice(viols, func(i, j int) bool { return viols[i].Obligation < viols[j].Obligation })
 
+	// bounded stand-ins (labelled bounded; never counted as discharged obligations)
+	var bounded []boundedResult
+	if prop != "" && !o.updateLedger && o.unit == "" {
+		var bv []violation
+		bounded, bv = runBounded(o)
+		viols = append(viols, bv...)
+	}
+	boundedOut = bounded
 	// replay files
 	exit := 0
 	var out []string
@@ -153,6 +163,9 @@ func report(o *checkOpts, prog *Program, results []*UnitResult, genFails map[str
 			v := &viols[i]
 			rp := filepath.Join(rdir, sanitizeFile(v.Obligation)+".json")
 			rep := map[string]any{"property": prop, "obligation": v.Obligation, "reason": v.Reason, "solver_status": v.Status, "solver_output": truncate(v.Detail, 20000)}
+			if strings.HasPrefix(v.Obligation, "bounded:") {
+				rep["replay"] = map[string]any{"family": strings.TrimPrefix(v.Obligation, "bounded:"), "confirmed": v.Confirmed}
+			}
 			if ob, ok := byName[v.Obligation]; ok {
 				rep["clause"] = ob.Src
 				rep["at"] = ob.Pos
@@ -326,6 +339,7 @@ func writeEvidence(o *checkOpts, prog *Program, results []*UnitResult, all []*Ob
 		"known_findings":           knownLines,
 		"vacuity_checks":           map[string]any{"cover_obligations": covers, "reachable_or_unknown": coversOK, "rule": "assert false at the exits of every unit must NOT be provable"},
 		"samples":                  samples,
+		"bounded":                  boundedOut,
 		"evaluations":              total,
 		"distinct_nontrivial":      total,
 		"rule":                     "one SMT query per named obligation generated from /repo's current source; non-trivial = not syntactically true",
